@@ -11,7 +11,7 @@ CLAIMED = {
          "For every lock-guarded container type every ordered pair of public methods (thorough: every triple, hundreds of random 4-8 goroutine mixes) from three initial contents is executed repeatedly under the Go race detector with varied GOMAXPROCS and injected yields; any race report whose access site is in gogu code, any panic, an unusable instance afterwards or a scenario that never finishes is a violation attributed to the scenario that was running. The detector is happens-before based, so one execution of a racing pair suffices; a second stage runs the controlled scheduler of C02 over ALL public methods (also variadic Push, Merge/Meld in both directions and with itself, Keys/StartsWith/LongestPrefix, List/MapToCache/Flush, rejected inputs) of heap, trie and cache: every schedule of every 2x1 program, sampled 3x1 and the 4-thread cross-merge programs, judged for deadlock, livelock, a call that blocks even one-at-a-time (leaked lock) and panics that no sequential order shows." + BOUND,
          "Trusts the Go race detector (bounded shadow history, only executed code). Free-running schedules are sampled, not enumerated. Reentrant callbacks are outside the domain.", "3.6, 4 (C01)", "c01"),
  "C02": ("controlled-scheduler enumeration of all interleavings (stateless DFS over a sync / sync-atomic shim applied source-to-source to a scratch copy; scheduling points at lock arrival and acquisition, at every atomic operation and after every unlock) + differential linearizability oracle against sequential runs of the same build; rapid for larger programs",
-         "For each container every program of 2x1, 3x1, (2||1) and 2x2 single-element calls (quick: all but a seeded quarter of the 2x2 programs sampled) from three initial states (cache: a fourth with an expired, unpurged entry; DeleteExpired among its operations) is executed under EVERY schedule at lock-acquisition granularity (plus scheduling points at atomics and after unlocks) by a cooperative scheduler that replaces package sync in a scratch copy of the working tree; each execution's results and follow-up observation must equal those of some one-at-a-time order of the same calls that respects real-time precedence; deadlock is a violation. Random larger programs (2-3 threads x 1-3 calls) with random schedules are shrunk by rapid. Complete at that granularity for the enumerated programs because race-free Go programs are sequentially consistent (race freedom is C01)." + BOUND,
+         "For each container every program of 2x1, 3x1, (2||1) and 2x2 single-element calls (quick: all but a seeded quarter of the 2x2 programs sampled) from three initial states (cache: a fourth with an expired, unpurged entry; DeleteExpired among its operations) is executed under EVERY schedule at lock-acquisition granularity (plus scheduling points at atomics and after unlocks) by a cooperative scheduler that replaces package sync in a scratch copy of the working tree; each execution's results and follow-up observation must equal those of some one-at-a-time order of the same calls that respects real-time precedence; deadlock is a violation. Random larger programs (2-3 threads x 1-3 calls) with random schedules are shrunk by rapid. Complete at that granularity for the enumerated programs because race-free Go programs are sequentially consistent (race freedom is C01). A second stage runs the unmodified packages under the real scheduler: writers keep the element count of one shared instance inside a known window while readers ask for the count in every way the type offers; a number outside the window is a state no linearization contains (sampling; it covers containers whose internals offer the controlled scheduler no scheduling point)." + BOUND,
          "Trusts the vsync shim's model of RWMutex (writer preference) and that all shared accesses happen inside critical sections (C01). Library-spawned goroutines (Traverse, cache cleanup) are excluded. Sequential defects cannot mask or pollute the verdict because the oracle is differential.", "3.5, 4 (C02)", "c02"),
  "C03": ("model-based stateful PBT (multiset + comparator model), bounded-exhaustive sequences + rapid; Sort as permutation/order oracle",
          "Operation sequences over Push/Pop/Peek/Clear/Convert/Delete/Merge/Meld/FromSlice with three comparators are executed against a multiset model: extremality of Pop/Peek, exact conservation (Size, IsEmpty, GetValues as multiset, Delete results), Merge/Meld/Convert/FromSlice contracts, final drain; Sort checked as ordered permutation. One open known finding (Delete leaves the vacated slot unsifted, pinned by the repository's tests) suspends only order assertions after such a Delete; conservation stays exact." + BOUND,
